@@ -91,6 +91,13 @@ def table(path):
                 if got != want / 8.0 or list(sv) != wants or inplace != wants:
                     fails.append(dict(what=mode + " separation", L=L, arg=[round((t - 0.125) * 8) for t in tgt],
                                       got=[got, list(sv), list(inplace)], want=wants))
+                # the same separation alone (the other components zero): no other component may trigger or hide a correction
+                solo_t = [0.125] * dim
+                solo_t[idx] = 0.125 + s_ / 8.0
+                sv1 = pb.separation_vector([0.125] * dim, solo_t)
+                n += 1
+                if sv1[idx] != want / 8.0 or any(sv1[j] != 0.0 for j in range(dim) if j != idx):
+                    fails.append(dict(what=mode + " separation (single component)", L=L, arg=s_, got=list(sv1), want=want / 8.0))
                 if (list(ref), list(tgt)) != before:
                     fails.append(dict(what=mode + " separation_vector changed its arguments", L=L, arg=s_, got=[ref, tgt], want=before))
                     ref, tgt = list(before[0]), list(before[1])
